@@ -299,3 +299,69 @@ def ref_basic_render(uni, rfunc, sort, bare_arrow=False):
                 line = line + repr(w)
         lines.append(line)
     return "\n".join(lines)
+
+
+# ---------------------------------------------------------------------------
+# C11: adjacency builders
+def ref_adj_pairs_dict(adj):
+    """(members in first-mention order, [(v1, v2)] in creation order) for load_adj_dict"""
+    members = []
+    pairs = []
+    for k in adj:
+        if not (k in members):
+            members.append(k)
+        for v in adj[k]:
+            pairs.append((k, v))
+            if not (v in members):
+                members.append(v)
+    return members, pairs
+
+
+def ref_adj_pairs_matrix(matrix, vertices):
+    members = dedup(vertices)
+    pairs = []
+    i = 0
+    while i < len(matrix):
+        row = matrix[i]
+        j = 0
+        while j < len(row):
+            if row[j]:
+                pairs.append((vertices[i], vertices[j]))
+            j = j + 1
+        i = i + 1
+    return members, pairs
+
+
+def incident_pairs(pairs, x):
+    out = []
+    for p in pairs:
+        if (p[0] is x) or (p[1] is x):
+            out.append(p)
+    return out
+
+
+def built_ok(uni, pool, pre_links, pre_unis, members, pairs, linktype):
+    """the graph after a builder call equals the described one"""
+    ok = uni._vertices == members
+    newlinks = []
+    for x in pool:
+        n0 = len(pre_links[pool.index(x)])
+        ok = ok and (x._links[:n0] == pre_links[pool.index(x)])
+        tail = x._links[n0:]
+        want = incident_pairs(pairs, x)
+        ok = ok and (len(tail) == len(want))
+        if len(tail) == len(want):
+            t = 0
+            while t < len(tail):
+                l = tail[t]
+                ok = ok and (type(l) is linktype) and (len(l._vertices) == 2)
+                ok = ok and (l._vertices[0] is want[t][0]) and (l._vertices[1] is want[t][1])
+                if not (l in newlinks):
+                    newlinks.append(l)
+                t = t + 1
+        if x in members:
+            ok = ok and (x._universes == pre_unis[pool.index(x)] + [uni])
+        else:
+            ok = ok and (x._universes == pre_unis[pool.index(x)])
+    ok = ok and (len(newlinks) == len(pairs))
+    return ok
